@@ -115,8 +115,13 @@ func (m *Model) Rearrange(perm []int) {
 			}
 		}
 	})
+	seen := make(map[*TokenSet]bool) // named sets referenced from other sets share their nodes
 	for _, set := range m.Sets {
 		set.ForEach(func(ts *TokenSet) {
+			if seen[ts] {
+				return
+			}
+			seen[ts] = true
 			if nt := ts.Symbol - terms; nt >= 0 {
 				ts.Symbol = terms + perm[nt]
 			}
